@@ -32,66 +32,89 @@
 (* the slot wait is cancelled); switch `Repaired = FALSE` gives the pinned *)
 (* behaviour, on which TLC finds the violations of StartedBound (C10) and  *)
 (* AtReturn (C03) that the trace checks found on the real code.            *)
+(* Recorded worker runs are validated against this specification by        *)
+(* Trace_Runner (events with arguments; Acquire / Callback / FG are the    *)
+(* silent steps): the worker's configuration is therefore a variable (wc)  *)
+(* and messages may arrive while the worker runs (pool, Arrive).           *)
 (***************************************************************************)
 EXTENDS Integers, Sequences, FiniteSets, TLC
-CONSTANTS Msgs, TL, ML, MaxRetries, Repaired,
+CONSTANTS Msgs,         \* message ids (positive integers)
+          TL, ML, MaxRetries,   \* model checking: tasks limit, messages limit (0: none), retries of every message
+          Late,         \* model checking: TRUE = any subset of the messages arrives while the worker runs
+          Repaired,
           Prefetch,     \* 0: consume() takes from the broker itself (in-memory); n > 0: a background fetch keeps up to n messages in a local queue
           FinishMode    \* "taken" | "local", see above
 
-VARIABLES q, proc, dead, acked, tried,      \* broker: waiting sequence, in flight, dead, acknowledged, attempt counters
+VARIABLES wc,                                \* configuration [tl, ml, maxr : Msgs -> Nat] (never changes)
+          pool,                              \* messages not yet enqueued
+          q, proc, dead, acked, tried,      \* broker: waiting sequence, in flight, dead, acknowledged, attempt counters
           cl, clm,                           \* consumer loop: pc, message in hand
           fetch, lq, hand,                   \* consumer: message being fetched, local queue, message returned by the inner consume task
           sem, tpc, out,                     \* free slots; per message: task pc, outcome
           processed, started, running,
           stop, cancel, phase
-vars == <<q, proc, dead, acked, tried, cl, clm, fetch, lq, hand, sem, tpc, out, processed, started, running, stop, cancel, phase>>
-None == "none"
+vars == <<wc, pool, q, proc, dead, acked, tried, cl, clm, fetch, lq, hand, sem, tpc, out, processed, started, running, stop, cancel, phase>>
+None == 0
+Perms(S) == {t \in [1..Cardinality(S) -> S] : \A a, b \in DOMAIN t : a # b => t[a] # t[b]}
+Rm(s, m) == SelectSeq(s, LAMBDA y : y # m)
+InQ(m) == \E k \in 1..Len(q) : q[k] = m
 
-Init == /\ q \in {s \in [1..Cardinality(Msgs) -> Msgs] : \A a, b \in DOMAIN s : a # b => s[a] # s[b]}
+InitWith(cfg, late) ==
+        /\ wc = cfg /\ pool = late /\ q \in Perms(Msgs \ late)
         /\ proc = {} /\ dead = {} /\ acked = {} /\ tried = [m \in Msgs |-> 0]
-        /\ cl = "consume" /\ clm = None /\ sem = TL /\ fetch = None /\ lq = <<>> /\ hand = None
+        /\ cl = "consume" /\ clm = None /\ sem = cfg.tl /\ fetch = None /\ lq = <<>> /\ hand = None
         /\ tpc = [m \in Msgs |-> "none"] /\ out = [m \in Msgs |-> "ok"]
         /\ processed = 0 /\ started = 0 /\ running = 0
         /\ stop = FALSE /\ cancel = FALSE /\ phase = "run"
+Init == \E late \in (IF Late THEN SUBSET Msgs ELSE {{}}) :
+            InitWith([tl |-> TL, ml |-> ML, maxr |-> [m \in Msgs |-> MaxRetries]], late)
 
-InFlightTasks == TL - sem
-Budget == ML - processed - InFlightTasks          \* what max_tasks_hit computes (ML = 0: unlimited)
-LimitHit == ML > 0 /\ Budget <= 0
+OverBudget(s) == wc.ml > 0 /\ wc.ml - processed - (wc.tl - s) < 0      \* with s free slots
+BudgetUsed(s) == wc.ml > 0 /\ wc.ml - processed - (wc.tl - s) <= 0     \* what max_tasks_hit computes
 
 U(vs) == UNCHANGED vs
+Arrive(m) == /\ m \in pool /\ pool' = pool \ {m} /\ q' = Append(q, m)
+             /\ U(<<wc, proc, dead, acked, tried, cl, clm, fetch, lq, hand, sem, tpc, out, processed, started, running, stop, cancel, phase>>)
 StopRequest == /\ ~stop /\ phase = "run" /\ stop' = TRUE
-               /\ U(<<q, proc, dead, acked, tried, cl, clm, fetch, lq, hand, sem, tpc, out, processed, started, running, cancel, phase>>)
+               /\ U(<<wc, pool, q, proc, dead, acked, tried, cl, clm, fetch, lq, hand, sem, tpc, out, processed, started, running, cancel, phase>>)
 
-(* in-memory: consume() takes the head of the queue itself; its inner task returns it *)
-CL_Take == /\ Prefetch = 0 /\ cl = "consume" /\ q # <<>> /\ ~stop
-           /\ proc' = proc \cup {Head(q)} /\ hand' = Head(q) /\ q' = Tail(q) /\ cl' = "handing"
-           /\ U(<<dead, acked, tried, clm, fetch, lq, sem, tpc, out, processed, started, running, stop, cancel, phase>>)
+(* A stop request is not noticed at once: the event wakes run_one_queue, which cancels the consume task, which sees the  *)
+(* cancellation at its next await -- in between the consumer loop goes on (take, resume, slot, spawn): its actions are     *)
+(* not guarded by ~stop; CL_Cancel is what ends the loop.                                                                  *)
+(* in-memory: consume() takes a waiting message itself (the head of the queue; a trace names it); its inner task returns it *)
+\* (tasks are keyed by message: a message is not taken again before the done-callback of its previous task has run --
+\*  the callback is scheduled in the loop step that ends the task, a new take needs several steps)
+CL_TakeM(m) == /\ Prefetch = 0 /\ cl = "consume" /\ InQ(m) /\ tpc[m] = "none"
+               /\ proc' = proc \cup {m} /\ hand' = m /\ q' = Rm(q, m) /\ cl' = "handing"
+               /\ U(<<wc, pool, dead, acked, tried, clm, fetch, lq, sem, tpc, out, processed, started, running, stop, cancel, phase>>)
+CL_Take == q # <<>> /\ CL_TakeM(Head(q))
 (* brokers with prefetch: the background fetch marks a message in flight, then puts it into the local queue *)
-C_Fetch == /\ Prefetch > 0 /\ fetch = None /\ Len(lq) < Prefetch /\ q # <<>> /\ phase # "ret" /\ ~stop
-           /\ proc' = proc \cup {Head(q)} /\ fetch' = Head(q) /\ q' = Tail(q)
-           /\ U(<<dead, acked, tried, cl, clm, lq, hand, sem, tpc, out, processed, started, running, stop, cancel, phase>>)
+C_FetchM(m) == /\ Prefetch > 0 /\ fetch = None /\ Len(lq) < Prefetch /\ InQ(m) /\ phase # "ret" /\ tpc[m] = "none"
+               /\ proc' = proc \cup {m} /\ fetch' = m /\ q' = Rm(q, m)
+               /\ U(<<wc, pool, dead, acked, tried, cl, clm, lq, hand, sem, tpc, out, processed, started, running, stop, cancel, phase>>)
+C_Fetch == q # <<>> /\ C_FetchM(Head(q))
 C_Local == /\ fetch # None /\ phase # "ret" /\ lq' = Append(lq, fetch) /\ fetch' = None
-           /\ U(<<q, proc, dead, acked, tried, cl, clm, hand, sem, tpc, out, processed, started, running, stop, cancel, phase>>)
-CL_Get == /\ Prefetch > 0 /\ cl = "consume" /\ lq # <<>> /\ ~stop
+           /\ U(<<wc, pool, q, proc, dead, acked, tried, cl, clm, hand, sem, tpc, out, processed, started, running, stop, cancel, phase>>)
+CL_Get == /\ Prefetch > 0 /\ cl = "consume" /\ lq # <<>>
           /\ hand' = Head(lq) /\ lq' = Tail(lq) /\ cl' = "handing"
-          /\ U(<<q, proc, dead, acked, tried, clm, fetch, sem, tpc, out, processed, started, running, stop, cancel, phase>>)
+          /\ U(<<wc, pool, q, proc, dead, acked, tried, clm, fetch, sem, tpc, out, processed, started, running, stop, cancel, phase>>)
 (* the consumer loop resumes with the message *)
-CL_Resume == /\ cl = "handing" /\ ~stop /\ clm' = hand /\ hand' = None /\ cl' = "got"
-             /\ U(<<q, proc, dead, acked, tried, fetch, lq, sem, tpc, out, processed, started, running, stop, cancel, phase>>)
+CL_Resume == /\ cl = "handing" /\ clm' = hand /\ hand' = None /\ cl' = "got"
+             /\ U(<<wc, pool, q, proc, dead, acked, tried, fetch, lq, sem, tpc, out, processed, started, running, stop, cancel, phase>>)
 (* acquire a slot (possibly after waiting), then the budget check of the repaired code, then spawn *)
-CL_Acquire ==
-    /\ cl \in {"got", "wait"} /\ ~stop
-    /\ IF sem = 0 THEN cl = "got" /\ cl' = "wait" /\ U(<<q, proc, sem, tpc, clm, stop>>)
-       ELSE IF Repaired /\ ML > 0 /\ ML - processed - (TL - (sem - 1)) < 0
-       THEN \* over budget: slot released again, message rejected, consumption stopped
-            /\ q' = Append(q, clm) /\ proc' = proc \ {clm} /\ stop' = TRUE /\ cl' = "ended" /\ clm' = None
-            /\ U(<<sem, tpc>>)
-       ELSE /\ sem' = sem - 1 /\ tpc' = [tpc EXCEPT ![clm] = "spawned"] /\ clm' = None
-            /\ IF Repaired /\ ML > 0 /\ ML - processed - (TL - (sem - 1)) <= 0
+CL_Wait == /\ cl = "got" /\ sem = 0 /\ cl' = "wait"
+           /\ U(<<wc, pool, q, proc, dead, acked, tried, clm, fetch, lq, hand, sem, tpc, out, processed, started, running, stop, cancel, phase>>)
+\* over budget: the slot is released again, the message rejected, consumption stopped
+CL_OverBudget == /\ cl \in {"got", "wait"} /\ sem > 0 /\ Repaired /\ OverBudget(sem - 1)
+                 /\ q' = Append(q, clm) /\ proc' = proc \ {clm} /\ stop' = TRUE /\ cl' = "ended" /\ clm' = None
+                 /\ U(<<wc, pool, dead, acked, tried, fetch, lq, hand, sem, tpc, out, processed, started, running, cancel, phase>>)
+CL_Spawn == /\ cl \in {"got", "wait"} /\ sem > 0 /\ ~(Repaired /\ OverBudget(sem - 1))
+            /\ sem' = sem - 1 /\ tpc' = [tpc EXCEPT ![clm] = "spawned"] /\ clm' = None
+            /\ IF Repaired /\ BudgetUsed(sem - 1)
                THEN stop' = TRUE /\ cl' = "ended"             \* budget used up: stop consuming now
                ELSE cl' = "consume" /\ U(<<stop>>)
-            /\ U(<<q, proc>>)
-    /\ U(<<dead, acked, tried, fetch, lq, hand, out, processed, started, running, cancel, phase>>)
+            /\ U(<<wc, pool, q, proc, dead, acked, tried, fetch, lq, hand, out, processed, started, running, cancel, phase>>)
+CL_Acquire == CL_Wait \/ CL_OverBudget \/ CL_Spawn
 (* consumption stopped: the consume task is cancelled; a message in hand is given back (repair ee8c893) *)
 CL_Cancel == /\ stop /\ cl \in {"consume", "handing", "got", "wait"}
              /\ IF clm # None /\ Repaired
@@ -99,59 +122,60 @@ CL_Cancel == /\ stop /\ cl \in {"consume", "handing", "got", "wait"}
                 ELSE U(<<q, proc>>)
              \* (a message the inner consume task has returned but the loop has not resumed with is dropped: nobody holds it)
              /\ cl' = "ended" /\ clm' = None /\ hand' = None
-             /\ U(<<dead, acked, tried, fetch, lq, sem, tpc, out, processed, started, running, stop, cancel, phase>>)
+             /\ U(<<wc, pool, dead, acked, tried, fetch, lq, sem, tpc, out, processed, started, running, stop, cancel, phase>>)
 
 T_Start(m) == /\ tpc[m] = "spawned" /\ ~cancel
               /\ tpc' = [tpc EXCEPT ![m] = "running"] /\ started' = started + 1 /\ running' = running + 1
               /\ \E o \in {"ok", "fail"} : out' = [out EXCEPT ![m] = o]
-              /\ U(<<q, proc, dead, acked, tried, cl, clm, fetch, lq, hand, sem, processed, stop, cancel, phase>>)
+              /\ U(<<wc, pool, q, proc, dead, acked, tried, cl, clm, fetch, lq, hand, sem, processed, stop, cancel, phase>>)
 T_End(m) == /\ tpc[m] = "running" /\ tpc' = [tpc EXCEPT ![m] = "report"] /\ running' = running - 1
-            /\ U(<<q, proc, dead, acked, tried, cl, clm, fetch, lq, hand, sem, out, processed, started, stop, cancel, phase>>)
+            /\ U(<<wc, pool, q, proc, dead, acked, tried, cl, clm, fetch, lq, hand, sem, out, processed, started, stop, cancel, phase>>)
 (* ack / nack / requeue are single atomic steps of the (repaired) in-memory broker *)
 T_Report(m) ==
     /\ tpc[m] = "report" /\ m \in proc
     /\ CASE out[m] = "ok" -> proc' = proc \ {m} /\ acked' = acked \cup {m} /\ U(<<q, dead, tried>>)
-         [] out[m] = "fail" /\ tried[m] < MaxRetries ->
+         [] out[m] = "fail" /\ tried[m] < wc.maxr[m] ->
                  proc' = proc \ {m} /\ q' = Append(q, m) /\ tried' = [tried EXCEPT ![m] = @ + 1] /\ U(<<dead, acked>>)
          [] OTHER -> proc' = proc \ {m} /\ dead' = dead \cup {m} /\ U(<<q, acked, tried>>)
     /\ tpc' = [tpc EXCEPT ![m] = "cb"]
-    /\ U(<<cl, clm, fetch, lq, hand, sem, out, processed, started, running, stop, cancel, phase>>)
+    /\ U(<<wc, pool, cl, clm, fetch, lq, hand, sem, out, processed, started, running, stop, cancel, phase>>)
 (* forced cancellation: the task is cancelled wherever it is, its message rejected (if still held) *)
 T_Cancel(m) == /\ cancel /\ tpc[m] \in {"spawned", "running", "report"}
                /\ running' = IF tpc[m] = "running" THEN running - 1 ELSE running
                /\ IF m \in proc THEN proc' = proc \ {m} /\ q' = Append(q, m) ELSE U(<<proc, q>>)
                /\ tpc' = [tpc EXCEPT ![m] = "cb"]
-               /\ U(<<dead, acked, tried, cl, clm, fetch, lq, hand, sem, out, processed, started, stop, cancel, phase>>)
+               /\ U(<<wc, pool, dead, acked, tried, cl, clm, fetch, lq, hand, sem, out, processed, started, stop, cancel, phase>>)
 T_Callback(m) == /\ tpc[m] = "cb" /\ sem' = sem + 1 /\ processed' = processed + 1
                  /\ tpc' = [tpc EXCEPT ![m] = IF m \in acked \/ m \in dead THEN "done" ELSE "none"]
-                 /\ stop' = (stop \/ (ML > 0 /\ ML - (processed + 1) - (TL - (sem + 1)) <= 0))
-                 /\ U(<<q, proc, dead, acked, tried, cl, clm, fetch, lq, hand, out, started, running, cancel, phase>>)
+                 /\ stop' = (stop \/ (wc.ml > 0 /\ wc.ml - (processed + 1) - (wc.tl - (sem + 1)) <= 0))
+                 /\ U(<<wc, pool, q, proc, dead, acked, tried, cl, clm, fetch, lq, hand, out, started, running, cancel, phase>>)
 
 Active == {m \in Msgs : tpc[m] \in {"spawned", "running", "report", "cb"}}
 (* finish_gracefully: all tasks done, or the graceful period is over (either may happen) -> cancel event *)
 FG == /\ phase = "run" /\ cl = "ended" /\ phase' = "fin" /\ cancel' = TRUE
-      /\ U(<<q, proc, dead, acked, tried, cl, clm, fetch, lq, hand, sem, tpc, out, processed, started, running, stop>>)
-(* consumers' finish(): what the consumer took and nobody settled goes back *)
-Perms(S) == {t \in [1..Cardinality(S) -> S] : \A a, b \in DOMAIN t : a # b => t[a] # t[b]}
-ConsFinish == /\ phase = "fin" /\ Active = {} /\ phase' = "ret"
+      /\ U(<<wc, pool, q, proc, dead, acked, tried, cl, clm, fetch, lq, hand, sem, tpc, out, processed, started, running, stop>>)
+(* consumers' finish(): what the consumer took and nobody settled goes back.  Worker.run() does not wait for the  *)
+(* tasks it has just cancelled: finish() may run while they are still rejecting their messages (a message that     *)
+(* finish() has already returned is then no longer held: that reject finds nothing to do)                           *)
+ConsFinish == /\ phase = "fin" /\ phase' = "ret"
               /\ IF FinishMode = "taken"
                  THEN /\ \E s \in Perms(proc) : q' = q \o s
                       /\ proc' = {}
                  ELSE \* only what is in the local queue; the fetch under way is cancelled where it is
                       /\ q' = q \o lq /\ proc' = proc \ {lq[k] : k \in 1..Len(lq)}
               /\ lq' = <<>> /\ fetch' = None
-              /\ U(<<dead, acked, tried, cl, clm, hand, sem, tpc, out, processed, started, running, stop, cancel>>)
+              /\ U(<<wc, pool, dead, acked, tried, cl, clm, hand, sem, tpc, out, processed, started, running, stop, cancel>>)
 Next == StopRequest \/ CL_Take \/ C_Fetch \/ C_Local \/ CL_Get \/ CL_Resume \/ CL_Acquire \/ CL_Cancel \/ FG \/ ConsFinish
-        \/ \E m \in Msgs : T_Start(m) \/ T_End(m) \/ T_Report(m) \/ T_Cancel(m) \/ T_Callback(m)
+        \/ \E m \in Msgs : Arrive(m) \/ T_Start(m) \/ T_End(m) \/ T_Report(m) \/ T_Cancel(m) \/ T_Callback(m)
 Spec == Init /\ [][Next]_vars
 
-InQ(m) == \E k \in 1..Len(q) : q[k] = m
 Count(m) == Cardinality({k \in 1..Len(q) : q[k] = m}) + (IF m \in proc THEN 1 ELSE 0)
-            + (IF m \in dead THEN 1 ELSE 0) + (IF m \in acked THEN 1 ELSE 0)
+            + (IF m \in dead THEN 1 ELSE 0) + (IF m \in acked THEN 1 ELSE 0) + (IF m \in pool THEN 1 ELSE 0)
 Conservation == \A m \in Msgs : Count(m) = 1                     \* C01/C03 at every step
-RunningBound == running <= TL                                      \* C09
-StartedBound == ML > 0 => started <= ML                            \* C10
-AtReturn == phase = "ret" => (proc = {} /\ \A m \in Msgs : Count(m) = 1)      \* C03
-TriedBound == \A m \in Msgs : tried[m] <= MaxRetries               \* C04
+RunningBound == running <= wc.tl                                   \* C09
+StartedBound == wc.ml > 0 => started <= wc.ml                      \* C10
+AtReturn == (phase = "ret" /\ Active = {}) => (proc = {} /\ \A m \in Msgs : Count(m) = 1)      \* C03 (once the cancelled tasks are through)
+TriedBound == \A m \in Msgs : tried[m] <= wc.maxr[m]             \* C04
+SlotsSound == sem >= 0 /\ sem <= wc.tl /\ Cardinality(Active) = wc.tl - sem     \* the semaphore counts the tasks
 Bounded == processed <= 8 /\ started <= 8
 =============================================================================
